@@ -554,6 +554,13 @@ def _canonical_statements(tree: ast.AST):
                             out.append(ast.copy_location(ast.If(test=st.value.test, body=[a1], orelse=[a2]), st))
                             i += 1
                             continue
+                        # return [not] any(C for t in it) / all(C for t in it)   ->   for t in it: if [not] C: return <const> ; return <other const>
+                        # (a function that consists of that one return keeps the expression form: it is already as simple as it gets)
+                        q = _quantifier_return(st) if not (node is fn and len([x for x in blk if not _is_inert(x)]) == 1) else None
+                        if q is not None:
+                            out.extend(q)
+                            i += 1
+                            continue
                         if isinstance(st, ast.Return) and isinstance(st.value, ast.IfExp):
                             r1 = ast.copy_location(ast.Return(value=st.value.body), st)
                             r2 = ast.copy_location(ast.Return(value=st.value.orelse), st)
@@ -874,7 +881,9 @@ def _inline_adjacent_temporaries(tree: ast.AST):
                         st, nxt = blk[k], blk[k + 1]
                         if isinstance(st, ast.Assign) and len(st.targets) == 1 and isinstance(st.targets[0], ast.Name) and getattr(st, "ann", None) is None:
                             t = st.targets[0].id
-                            if t not in params and t not in nested and stores.get(t) == 1 and loads.get(t) == 1 and _pure_expr(st.value):
+                            # `t = E ; X = t` (the whole value of the next assignment): E is evaluated at the same point either way, pure or not
+                            whole = isinstance(nxt, ast.Assign) and isinstance(nxt.value, ast.Name) and nxt.value.id == t
+                            if t not in params and t not in nested and stores.get(t) == 1 and loads.get(t) == 1 and (_pure_expr(st.value) or whole):
                                 # where the single read is: header / simple statement of nxt only
                                 if isinstance(nxt, (ast.Assign, ast.AugAssign, ast.Return, ast.Expr)):
                                     parts = [nxt]
@@ -1160,6 +1169,32 @@ def _unroll_literal_loop(fn, L: ast.For):
     return out
 
 
+def _quantifier_return(st):
+    """`return any(C for t in it)`, `return all(...)` and their negations as the early-exit loop they abbreviate (one generator, no filter)"""
+    if not isinstance(st, ast.Return) or st.value is None:
+        return None
+    v, neg = st.value, False
+    if isinstance(v, ast.UnaryOp) and isinstance(v.op, ast.Not):
+        v, neg = v.operand, True
+    if not (isinstance(v, ast.Call) and isinstance(v.func, ast.Name) and v.func.id in ("any", "all") and len(v.args) == 1 and not v.keywords and
+            isinstance(v.args[0], (ast.GeneratorExp, ast.ListComp)) and len(v.args[0].generators) == 1 and not v.args[0].generators[0].ifs
+            and not v.args[0].generators[0].is_async):
+        return None
+    g = v.args[0].generators[0]
+    is_any = v.func.id == "any"
+    test = v.args[0].elt if is_any else _negate(v.args[0].elt)
+    hit = is_any          # value of the quantifier when the loop exits early
+    early, late = (hit, not hit)
+    if neg:
+        early, late = (not early, not late)
+    loop = ast.copy_location(ast.For(target=g.target, iter=g.iter, orelse=[], type_comment=None,
+                                     body=[ast.If(test=test, body=[ast.Return(value=ast.Constant(value=early))], orelse=[])]), st)
+    fin = ast.copy_location(ast.Return(value=ast.Constant(value=late)), st)
+    ast.fix_missing_locations(loop)
+    ast.fix_missing_locations(fin)
+    return [loop, fin]
+
+
 def _plain_read(e: ast.AST) -> bool:
     """name, constant, or attribute chain on a name (a field read)"""
     while isinstance(e, ast.Attribute):
@@ -1220,8 +1255,10 @@ def normalise_tree(tree: ast.AST, computed: Set[str] = frozenset()) -> int:
         _propagate_field_reads(tree, computed)      # `computed`: names of properties (their reads run code: never duplicated)
         if os.environ.get("PGSTAT_NO_ELEMENT_READS") != "1":
             _propagate_element_reads(tree)
-        _inline_adjacent_temporaries(tree)
-        _canonical_statements(tree)
+        for _pass in range(3):
+            _inline_adjacent_temporaries(tree)
+            _canonical_statements(tree)
+            _eliminate_aliases(tree)
     for fn in [n for n in ast.walk(tree) if isinstance(n, (ast.FunctionDef, ast.AsyncFunctionDef))]:
         for node in ast.walk(fn):
             for fld in ("body", "orelse", "finalbody"):
@@ -1260,14 +1297,18 @@ class Model:
                 warnings.simplefilter("ignore")
                 tree = ast.parse(src, filename=str(p))
             mname = PKG if p.stem == "__init__" else f"{PKG}.{p.stem}"
-            from .inline import drop_unreferenced_helpers, inline_module_helpers
             _canonical_receivers(tree)
-            n_inl, log = inline_module_helpers(tree, mname)
-            self.inlined = getattr(self, "inlined", []) + [f"{p.name}: {l}" for l in log]
             self.modules[mname] = Module(mname, f"{PKG}/{p.name}", src, tree)
-        self.helpers_dropped = drop_unreferenced_helpers([m.tree for m in self.modules.values()])
+        from . import inline as _inline
+        # names of properties anywhere in the package: reading one runs code, so such a read is never duplicated by a rewriting
         computed = {s.name for m in self.modules.values() for c in ast.walk(m.tree) if isinstance(c, ast.ClassDef) for s in c.body
                     if isinstance(s, ast.FunctionDef) and any(ast.unparse(d).split(".")[-1] in ("property", "cached_property") for d in s.decorator_list)}
+        _inline.COMPUTED = computed
+        self.inlined = []
+        for mname, m in self.modules.items():
+            n_inl, log = _inline.inline_module_helpers(m.tree, mname)
+            self.inlined += [f"{m.relpath.split('/')[-1]}: {l}" for l in log]
+        self.helpers_dropped = _inline.drop_unreferenced_helpers([m.tree for m in self.modules.values()])
         for m in self.modules.values():
             self.inert_removed = getattr(self, "inert_removed", 0) + normalise_tree(m.tree, computed)
         for m in self.modules.values():
